@@ -105,7 +105,8 @@ func init() {
 					lines: []string{"foldout", "checkdown"}, decks: []string{"asc"}, newStack: 5,
 					between: []string{"none", "arrive", "setup-again"}, finish: []string{"all", "none"}, panicsAreDiagnostics: true})
 			}
-			return append(histSuites("c07/", cfgs, bound, func(h *hist) []Monitor { return []Monitor{newMonC07(h)} }), c07SchedSuites(tier)...)
+			ss := append(histSuites("c07/", cfgs, bound, func(h *hist) []Monitor { return []Monitor{newMonC07(h)} }), c07SchedSuites(tier)...)
+			return append(ss, tableRaceSuites("c07/", tier, []string{"close", "release"}, true, func(h *hist) []Monitor { return []Monitor{&monStopRace{h: h}} })...)
 		},
 	})
 	register(&Check{
@@ -163,7 +164,8 @@ func init() {
 					lines: []string{"foldout"}, decks: []string{"plain"}, newStack: 5,
 					between: []string{"none", "blind-raise", "blind-ante", "blind-break", "blind-resume"}, mid: []string{"none", "blind-raise", "blind-ante"}})
 			}
-			return append(histSuites("c12/", cfgs, bound, func(h *hist) []Monitor { return []Monitor{newMonC12(h)} }), c12SchedSuites(tier)...)
+			ss := append(histSuites("c12/", cfgs, bound, func(h *hist) []Monitor { return []Monitor{newMonC12(h)} }), c12SchedSuites(tier)...)
+			return append(ss, tableRaceSuites("c12/", tier, []string{"blind-raise", "blind-ante", "blind-break"}, true, func(h *hist) []Monitor { return []Monitor{newMonC12(h)} })...)
 		},
 	})
 }
